@@ -191,7 +191,7 @@ func (s *setupWorker) setup(ctx context.Context, m transport.Metadata) error {
 	// Several records may be listed for the client id (a stale one whose removal is still in
 	// flight besides the current one): all of them are superseded by this connection.
 	for {
-		metadata, err := s.state.SessionMetadatas().ByClientID(session.ClientID())
+		metadata, err := s.state.SessionMetadatas().ByClientID(session.ClientID(), session.MountPoint())
 		if err != nil {
 			break
 		}
